@@ -47,8 +47,9 @@ C01_Sc2(s) == IF s.more THEN {[Base EXCEPT !.ans = a, !.hs = hl] : a \in Ans2, h
 C01t_Sc1 == C01_Sc1 \cup {[Base EXCEPT !.hs = hl, !.ans = a, !.ns = n, !.hard = h, !.fok = TRUE] :
                             hl \in HL, a \in {"honest", "closed", "replay"}, n \in {"NONS", "NSOK"}, h \in BOOLEAN}
                     \cup {[Base EXCEPT !.hs = hl, !.more = TRUE, !.ans = a] : hl \in {<<"regular">>, <<"reject", "regular">>}, a \in {"honest", "otherdata"}}
-C01t_Sc2(s) == IF s.more THEN {[Base EXCEPT !.ans = a, !.hs = hl, !.more = m, !.dir = d] : a \in Ans2, m \in BOOLEAN,
-                                 hl \in {<<"regular">>, <<"regular", "accept">>}, d \in {DirU, Dir("none", "U", "none", "none")}} ELSE {}
+C01t_Sc2(s) == IF s.more THEN {[Base EXCEPT !.ans = a, !.hs = hl, !.dir = d] : a \in Ans2,
+                                 hl \in {<<"regular">>, <<"regular", "accept">>}, d \in {DirU, Dir("none", "U", "none", "none")}}
+                           \cup {[Base EXCEPT !.ans = a, !.more = TRUE] : a \in {"honest", "replay", "otherdata"}} ELSE {}
 
 \* C02: CA key algorithm x form of the configured identifier map x validity
 Other(a) == (a + 1) % 5
@@ -68,8 +69,12 @@ C03_Sc2(s) == IF s.more THEN {[Base EXCEPT !.hs = hl, !.ncert = n, !.fok = TRUE]
                          \cup {[Base EXCEPT !.ans = "otherkey"], [Base EXCEPT !.algo = 2]} ELSE {}
 C03t_Sc1 == {[Base EXCEPT !.hs = hl, !.ncert = n, !.val = v, !.more = TRUE] : hl \in {<<"regular">>, <<"accept">>}, n \in 1..3, v \in Vals}
        \cup {[Base EXCEPT !.ans = "otherkey", !.more = TRUE]}
-C03t_Sc2(s) == IF s.more THEN {[Base EXCEPT !.hs = hl, !.ncert = n, !.fok = TRUE, !.more = m] : hl \in {<<"regular">>, <<"accept">>}, n \in {0, 2}, m \in BOOLEAN}
-                          \cup {[Base EXCEPT !.ans = "otherkey"], [Base EXCEPT !.algo = 2]} ELSE {}
+\* (second runs admit faults; a third run follows a regular second run, without further faults)
+C03t_Sc2(s) == IF ~s.more THEN {}
+               ELSE IF s.fok THEN {[Base EXCEPT !.hs = hl] : hl \in {<<"regular">>, <<"accept">>}} \cup {[Base EXCEPT !.ans = "otherkey"]}
+               ELSE {[Base EXCEPT !.hs = hl, !.ncert = n, !.fok = TRUE] : hl \in {<<"regular">>, <<"accept">>}, n \in {0, 2}}
+                    \cup {[Base EXCEPT !.ncert = n, !.fok = TRUE, !.more = TRUE] : n \in {0, 2}}
+                    \cup {[Base EXCEPT !.ans = "otherkey"], [Base EXCEPT !.algo = 2]}
 
 \* C04: every single fault at every agent operation index / CA call / handler method, 1..3 certificates per request,
 \* one or two requests, every typed generation error
